@@ -11,8 +11,8 @@ open SoyVerif SoyVerif.Model
 macro "eok2" : tactic => `(tactic|
   first
   | exact emitOK_safe rfl rfl
-  | (split <;> refine ⟨fun h => ?_, fun h => ?_⟩ <;> first | exact absurd h (by decide) | lx)
-  | (refine ⟨fun h => ?_, fun h => ?_⟩ <;> first | exact absurd h (by decide) | lx))
+  | (split <;> refine ⟨fun h => ?_, fun h => ?_, by decide⟩ <;> first | exact absurd h (by decide) | lx)
+  | (refine ⟨fun h => ?_, fun h => ?_, by decide⟩ <;> first | exact absurd h (by decide) | lx))
 
 /-! ### lexIdent -/
 
